@@ -68,6 +68,18 @@ def gen_cases(ctx, rng):
         cases.append({"dir": rng.choice(["upstream", "downstream"]), "chain": chain, "src": src, "ops": ops, "links": 1, "link_start": [8 * L.MS],
                       "horizon": 3600 * 1000 * L.MS, "seed": 4000 + i, "expect_latency": Lms, "updated_before_connect": True})
         stats["updated_before_connect"] += 1
+    # latency behind a toxic that cuts chunks into pieces (bandwidth instalments, slices): every piece is still forwarded no earlier than
+    # latency after the proxy received its bytes (the pieces carry the receive time of the chunk they were cut from)
+    stats["behind_a_splitter"] = 0
+    for i in range(16 if ctx.tier == "quick" else 400):
+        Lms = rng.choice([300, 1000])
+        first = rng.choice([L.tx("bandwidth", name="b", rate=rng.choice([5, 10])), L.tx("slicer", name="s", average_size=rng.choice([100, 400]), size_variation=0, delay=rng.choice([1000, 20000]))])
+        chain = [first, L.tx("latency", name="l", latency=Lms, jitter=0)]
+        t0 = rng.range(1, 10) * L.MS
+        src = [{"at": t0, "n": rng.range(1500, 4000)}, {"at": t0 + 5000 * L.MS, "n": rng.range(1200, 2500)}, {"at": t0 + 12000 * L.MS, "close": True}]
+        cases.append({"dir": rng.choice(["upstream", "downstream"]), "chain": chain, "src": src, "horizon": 3600 * 1000 * L.MS, "seed": 7500 + i,
+                      "behind_splitter": Lms})
+        stats["behind_a_splitter"] += 1
     # several connections through the same latency toxic at once (one toxic object serves every link of the proxy): the delay is
     # per piece and per connection - waits that overlap in time on different connections must not disturb one another
     stats["shared_by_connections"] = 0
@@ -98,6 +110,21 @@ def oracle(case, res):
     sent = sum(e.get("n", 0) for e in case["src"])
     if res["total"] != sent:
         return "receiver got %d of %d bytes" % (res["total"], sent)
+    if case.get("behind_splitter"):
+        # byte k of the stream was received by the proxy at the time of the write that carried it
+        ws, pos = res["writes"] or [], 0
+        bounds, acc = [], 0
+        for e in case["src"]:
+            if not e.get("close"):
+                acc += e["n"]
+                bounds.append((acc, e["at"]))
+        for w in ws:
+            at = [t for (end, t) in bounds if pos < end][0]
+            if w["t"] - at < case["behind_splitter"] * L.MS:
+                return ("a piece of %d bytes (stream offset %d) was forwarded %d ns after the proxy received it, earlier than the latency of %d ms (latency behind a "
+                        "toxic that cuts chunks into pieces)" % (w["n"], pos, w["t"] - at, case["behind_splitter"]))
+            pos += w["n"]
+        return None
     lats = [t for t in case["chain"] if t["type"] == "latency"]
     lo = sum(max(0, t["attributes"]["latency"] - t["attributes"]["jitter"]) for t in lats) * L.MS
     hi = sum(t["attributes"]["latency"] + t["attributes"]["jitter"] for t in lats) * L.MS
